@@ -752,17 +752,38 @@ def rewritten_problem_kind(problem_kind: ProblemKind) -> ProblemKind:
     return new_kind
 
 
+def simplified_numbers_problem_kind(problem_kind: ProblemKind) -> ProblemKind:
+    """
+    Returns the `ProblemKind` that a problem of the given kind can have after it has been rewritten (see
+    :func:`rewritten_problem_kind`) by a compiler that also simplifies the durations and the action costs:
+    an expression of real type whose value is an integer (`0.5 * 2`, `4 / 2`) becomes an integer constant,
+    so the kind of the rewritten problem plus `INT_TYPE_DURATIONS` when it has `REAL_TYPE_DURATIONS` and
+    `INT_NUMBERS_IN_ACTIONS_COST` when it has `REAL_NUMBERS_IN_ACTIONS_COST`. An expression of integer type
+    never becomes real.
+
+    :param problem_kind: The kind of the problem given to the compiler.
+    :return: The kind of the rewritten problem, a superset of the given kind.
+    """
+    new_kind = rewritten_problem_kind(problem_kind)
+    if new_kind.has_real_type_durations():
+        new_kind.set_expression_duration("INT_TYPE_DURATIONS")
+    if new_kind.has_real_numbers_in_actions_cost():
+        new_kind.set_actions_cost_kind("INT_NUMBERS_IN_ACTIONS_COST")
+    return new_kind
+
+
 def grounded_problem_kind(problem_kind: ProblemKind) -> ProblemKind:
     """
     Returns the `ProblemKind` that a problem of the given kind can have after its actions have been grounded
-    and its static fluents replaced by their values: the kind of the rewritten problem (see
-    :func:`rewritten_problem_kind`) plus both number types wherever a static fluent can be replaced by its
-    value, which need not have the declared type of the fluent (a real fluent can have an integer value).
+    and its static fluents replaced by their values: the kind of the rewritten problem with simplified
+    durations and action costs (see :func:`simplified_numbers_problem_kind`) plus both number types wherever
+    a static fluent can be replaced by its value, which need not have the declared type of the fluent (a real
+    fluent can have an integer value).
 
     :param problem_kind: The kind of the problem given to a grounder.
     :return: The kind of the grounded problem, a superset of the given kind.
     """
-    new_kind = rewritten_problem_kind(problem_kind)
+    new_kind = simplified_numbers_problem_kind(problem_kind)
     if new_kind.has_static_fluents_in_durations():
         new_kind.set_expression_duration("INT_TYPE_DURATIONS")
         new_kind.set_expression_duration("REAL_TYPE_DURATIONS")
